@@ -224,13 +224,16 @@ theorem views_agree_revalidate (space : String) : KeepsInv (.revalidate space) :
 theorem views_agree_closeSpace (space : String) : KeepsInv (.closeSpace space) :=
   fun _ h => Agree_closeSpace h space
 
+/-- stream close (`removeStream` + `onStreamClose`) keeps the invariant -/
+theorem views_agree_closeStream (sid : Nat) : KeepsInv (.closeStream sid) :=
+  fun _ h => Agree_closeStream h sid
+
 /-- **views_agree_partial.** The full statement follows by induction over the history from the
-per-step obligations. NAMED GAP: `KeepsInv` for subscribe, unsubscribe and stream close is a
-hypothesis here; all other operations are proved above. -/
+per-step obligations. NAMED GAP: `KeepsInv` for subscribe and unsubscribe is a hypothesis here;
+all other operations are proved above. -/
 theorem views_agree_partial
     (hsub : ∀ sid peer ident space topics, KeepsInv (.subscribe sid peer ident space topics))
-    (hunsub : ∀ sid space topics, KeepsInv (.unsubscribe sid space topics))
-    (hclose : ∀ sid, KeepsInv (.closeStream sid)) : C17_views_agree_full := by
+    (hunsub : ∀ sid space topics, KeepsInv (.unsubscribe sid space topics)) : C17_views_agree_full := by
   intro a b c ops
   have hstep : ∀ op, KeepsInv op := by
     intro op
@@ -240,7 +243,7 @@ theorem views_agree_partial
     | unsubscribe sid space topics => exact hunsub sid space topics
     | publish peer ident space topic msgIdent relayed idLenOk big =>
       exact views_agree_publish peer ident space topic msgIdent relayed idLenOk big
-    | closeStream sid => exact hclose sid
+    | closeStream sid => exact views_agree_closeStream sid
     | evict space acct => exact views_agree_evict space acct
     | revalidate space => exact views_agree_revalidate space
     | closeSpace space => exact views_agree_closeSpace space
